@@ -313,9 +313,9 @@ def conformant_session(g, npk=8, unknown=True, multi_tmpl=True, parsers=("A", "B
         p = r.choice(parsers)
         m = r.random()
         if m < 0.12:
-            pk = g.fixed(5, r.choice([0, 1, 2, 3, 30]))
+            pk = g.fixed(5, r.choice([0, 1, 2, 3, 30, 31, 33]))     # the documented range is 1-30; the count field governs
         elif m < 0.2:
-            pk = g.fixed(7, r.choice([0, 1, 2, 5]))
+            pk = g.fixed(7, r.choice([0, 1, 2, 5, 31]))
         else:
             proto = "v9" if r.random() < 0.5 else "ipfix"
             e = ex[p][proto]
@@ -505,9 +505,9 @@ def packet_sequence(g, n, ex9, ex10, self_delimiting=True):
     for _ in range(n):
         m = r.random()
         if m < 0.2:
-            pks.append((5, g.fixed(5, r.choice([0, 1, 2]))))
+            pks.append((5, g.fixed(5, r.choice([0, 1, 2, 2, 31]))))
         elif m < 0.3:
-            pks.append((7, g.fixed(7, r.choice([0, 1, 2]))))
+            pks.append((7, g.fixed(7, r.choice([0, 1, 2, 2, 29]))))
         elif m < 0.36:
             pks.append((10, g.ix_msg([])))              # a message with no sets: 16 bytes
         elif m < 0.40:
